@@ -10,7 +10,7 @@
 From Coq Require Import ZArith NArith PeanoNat List Bool Lia ZifyN ZifyNat.
 From Pi2 Require Import ML.Syntax ML.Subst ML.Machine ML.Facts
   MM16.Verify MM16.Convert MM16.Instr MM16.Translate MM16.Fragment
-  MM16.InstrFacts MM16.ConvertFacts MM16.SimFacts MM16.VerifyFacts MM16.GenPrims MM16.GenRun Gen.MMTranslate.
+  MM16.InstrFacts MM16.ConvertFacts MM16.SimFacts MM16.VerifyFacts MM16.Sim MM16.Step MM16.GenPrims MM16.GenRun Gen.MMTranslate.
 Import ListNotations.
 Open Scope N_scope.
 
@@ -367,6 +367,8 @@ Ltac finish_heap E :=
   | _ => idtac
   end.
 
+Ltac Rstep2 := repeat (Rstep; cbn [mst stack memory claims push set_stack nth_error]; cbv beta iota zeta).
+
 Section Agree.
 Variable cv : conv.
 Variable axioms : list pat.
@@ -499,6 +501,185 @@ Proof.
         destruct stk as [|[r|r] [|[l0|l0] s]]; try discriminate.
         unfold i_app. Rstep. rewrite !term_eqb_refl'. cbn [andb]. Rstep. rewrite H. Rstep.
         pose proof (do_heap _ _ _ H) as EHp. destruct t' as [m1 h1 o1]. cbn in EHp |- *. subst h1. reflexivity.
-    + admit.
-    + admit.
-Admitted.
+    + kind_facts F C. rewrite R_bind, R_ret. cbv beta iota.
+      unfold ax_step in H.
+      destruct (save_pops (length (a_ess a)) t []) as [[saved t1]|] eqn:SP; [|discriminate].
+      destruct (load_of (TProved (axiom_pat d sid a)) t1) as [t2|] eqn:LD; [|discriminate].
+      destruct (do_inst d a t2) as [t3|] eqn:DI; [|discriminate].
+      pose proof (save_pops_heap _ _ _ _ _ SP) as EH1. pose proof (do_heap_load _ _ _ LD) as EH2.
+      pose proof (do_inst_heap _ _ _ _ DI) as EH3. pose proof (mp_all_heap _ _ _ H) as EH4.
+      assert (HEX: existsb (pat_eqb (axiom_pat d sid a)) axioms = true) by (apply HAX; apply exported_in; assumption).
+      assert (INST: R (if (Z.ltb (0)%Z (py_len (ax_metavars cv a))) then (t44 <- p_stack_at (- (1)%Z)%Z ;; py_assert (is_proved t44) ;;; t45 <- cv_get_metavars_in_order cv l ;; t46 <- gen_get_delta cv t45 ;; i_instantiate t44 t46 ;;; ret tt) else (ret tt))%gen t2 = Some (tt, t3)).
+      { rewrite ltb_len_nonempty. unfold ax_metavars. pose proof (load_of_stack _ _ _ LD) as ES.
+        destruct (metavars_in_order d a) as [|v0 vs] eqn:EM.
+        - unfold do_inst, inst_ids in DI. rewrite EM in DI. simpl in DI. inversion DI; subst t3. apply R_ret.
+        - rewrite R_bind, R_stack_m1, ES. cbn [nth_error]. cbv beta iota zeta. rewrite R_bind, R_assert. cbn [is_proved]. cbv iota.
+          apply (inst_tail_agree l i a _ _ t2 t3 F ES); [rewrite EM; discriminate | exact DI]. }
+      rewrite R_bind, R_bind, R_bind. unfold cv_get_axiom_by_name at 1. rewrite F, R_lift. cbv beta iota zeta.
+      rewrite R_bind. unfold ax_has_antecedents. unfold axiom_pat in LD, HEX. unfold ax_antecedents, ax_pattern.
+      destruct (a_ess a) as [|e es] eqn:EE.
+      * (* no essential hypotheses *)
+        simpl in SP. inversion SP; subst saved t1. clear SP.
+        unfold ants_pat in LD, HEX. rewrite EE in LD, HEX. simpl in LD, HEX.
+        rewrite R_bind. unfold p_load_axiom. rewrite R_bind, R_assert, HEX. cbv iota. rewrite R_i_load, LD. cbv beta iota.
+        rewrite R_ret. cbv beta iota. rewrite R_bind, INST. cbv beta iota.
+        rewrite R_bind, R_ret. cbv beta iota. repeat (rewrite R_ret; cbv beta iota).
+        simpl in H. inversion H; subst t'. destruct t3 as [m1 h1 o1]. cbn in EH2, EH3 |- *. subst h1. rewrite EH2. reflexivity.
+      * (* essential hypotheses: save/pop each, load the implication chain, instantiate, load + mp each *)
+        assert (LA: length (ants_pat d sid a) = length (e :: es)) by (unfold ants_pat; rewrite EE; apply map_length).
+        rewrite <- LA in SP. rewrite R_bind.
+        match goal with |- context [foldM ?f (ants_pat d sid a) []] => set (body := f) end.
+        assert (HB: forall acc p t0 x t4, top t0 = Some x -> do [OSave; OPop] t0 = Some t4 -> R (body acc p) t0 = Some (acc ++ [(tt, x)], t4)).
+        { intros acc p t0 x t4 T0 D0. exact (save_body_agree acc p t0 x t4 T0 D0). }
+        destruct (save_loop_agree body HB (ants_pat d sid a) t [] saved t1 [] SP) as [new [E1 E2]].
+        rewrite E2. cbv beta iota. simpl app in E1. subst saved. simpl app.
+        assert (NE: ants_pat d sid a <> []) by (unfold ants_pat; rewrite EE; discriminate).
+        rewrite R_bind, (gen_convert_to_implication_agree cv _ _ t1 NE). cbv beta iota.
+        rewrite R_bind. unfold p_load_axiom. rewrite R_bind, R_assert, HEX. cbv iota. rewrite R_i_load, LD. cbv beta iota.
+        rewrite R_ret. cbv beta iota. rewrite R_bind, INST. cbv beta iota.
+        rewrite R_bind, R_bind. rewrite <- map_rev. rewrite (mp_loop_agree cv (rev new) t3 t' H). cbv beta iota.
+        repeat (rewrite R_ret; cbv beta iota).
+        destruct t' as [m1 h1 o1]. cbn in EH4 |- *. subst h1. rewrite EH3, EH2, EH1. reflexivity.
+    + kind_facts F C. rewrite R_bind, R_ret. cbv beta iota.
+      destruct l; cbn [label_eqb rule_step] in H |- *; cbv iota;
+        try (inversion H; subst t'; Rsimp; destruct t as [m1 h1 o1]; reflexivity).
+      * (* prop-1 *)
+        change [OProp1; OInst [1; 0]] with ([OProp1] ++ [OInst [1; 0]]) in H. rewrite do_app in H.
+        destruct (do [OProp1] t) as [t1|] eqn:D1; [|discriminate].
+        pose proof D1 as D1'. apply do_one in D1' as [s1 [HI1 Et1]]. cbn [irun] in HI1. inversion HI1; subst s1. clear HI1.
+        pose proof H as H'. apply do_one in H' as [s2' [HI2 _]]. subst t1.
+        destruct t as [[stk mem cl] h o]. cbn [irun mst stack push length] in HI2.
+        destruct stk as [|[pa|pa] [|[pb|pb] s2]]; try discriminate.
+        unfold i_prop1. Rstep. rewrite D1. Rstep2.
+        match goal with |- context [i_instantiate ?x ?dl] => change dl with (combine [0; 1] (map TPat (rev [pa; pb]))) end.
+        cbn [mst heap out stack memory claims push set_stack] in H |- *.
+        match type of H with do _ ?tt = _ => rewrite (i_instantiate_agree (TProved ax_prop1) [0; 1] [pa; pb] s2 tt t' eq_refl eq_refl H) end. Rsimp.
+        pose proof (do_heap _ _ _ H) as EHp. destruct t' as [m1 h1 o1]. cbn in EHp |- *. subst h1. reflexivity.
+      * (* prop-2 *)
+        change [OProp2; OInst [2; 1; 0]] with ([OProp2] ++ [OInst [2; 1; 0]]) in H. rewrite do_app in H.
+        destruct (do [OProp2] t) as [t1|] eqn:D1; [|discriminate].
+        pose proof D1 as D1'. apply do_one in D1' as [s1 [HI1 Et1]]. cbn [irun] in HI1. inversion HI1; subst s1. clear HI1.
+        pose proof H as H'. apply do_one in H' as [s2' [HI2 _]]. subst t1.
+        destruct t as [[stk mem cl] h o]. cbn [irun mst stack push length] in HI2.
+        destruct stk as [|[pa|pa] [|[pb|pb] [|[pc|pc] s2]]]; try discriminate.
+        unfold i_prop2. Rstep. rewrite D1. Rstep2.
+        match goal with |- context [i_instantiate ?x ?dl] => change dl with (combine [0; 1; 2] (map TPat (rev [pa; pb; pc]))) end.
+        cbn [mst heap out stack memory claims push set_stack] in H |- *.
+        match type of H with do _ ?tt = _ => rewrite (i_instantiate_agree (TProved ax_prop2) [0; 1; 2] [pa; pb; pc] s2 tt t' eq_refl eq_refl H) end. Rsimp.
+        pose proof (do_heap _ _ _ H) as EHp. destruct t' as [m1 h1 o1]. cbn in EHp |- *. subst h1. reflexivity.
+      * (* modus ponens and its cleanup *)
+        unfold mp_step in H. destruct (do [OMP] t) as [t1|] eqn:D1; [|discriminate].
+        destruct (top t1) as [c|] eqn:T1; [|discriminate].
+        destruct (do [OSave; OPop; OPop; OPop] t1) as [t2|] eqn:D2; [|discriminate].
+        Rsimp. rewrite (gen_do_mp_agree cv _ _ D1). cbv beta iota.
+        pose proof (do_heap _ _ _ D1) as EH1. pose proof (do_heap _ _ _ D2) as EH2. pose proof (do_heap_load _ _ _ H) as EH3.
+        destruct t1 as [[stk1 mem1 cl1] h1 o1]. unfold top in T1. cbn [mst stack hd_error] in T1.
+        unfold do in D2. cbn [iruns irun mst stack] in D2.
+        destruct stk1 as [|c0 [|a0 [|b0 s0]]]; try discriminate. inversion T1; subst c0. clear T1.
+        cbn [iruns irun mst stack memory claims set_stack] in D2. inversion D2; subst t2. clear D2.
+        unfold i_save, i_pop.
+        repeat (Rstep; rewrite ?term_eqb_refl'; unfold do; cbn [iruns irun mst stack memory claims heap out push set_stack app]; cbv beta iota zeta).
+        cbn [heap] in EH1, EH3.
+        match type of H with load_of c ?st = _ => match goal with |- context [load_of c ?st2] =>
+          replace st2 with st by (cbn [set_stack stack memory claims]; rewrite <- ?app_assoc; reflexivity) end end.
+        rewrite H. Rsimp.
+        destruct t' as [m1 h1' o1']. cbn in EH3 |- *. subst h1'. rewrite EH1. reflexivity.
+Qed.
+
+End Agree.
+
+(** ---- the whole loop, exec_proof, main's assembly *)
+Lemma R_heap_irrelevant {A} (m:M A) s h h0 o :
+  R m (mkT s h0 o) = match R m (mkT s h o) with Some (x, t) => Some (x, mkT (mst t) h0 (out t)) | None => None end.
+Proof. unfold R, g_of. cbn [mst out heap]. destruct (m (mkG s o)) as [[x g]|]; reflexivity. Qed.
+
+Section Whole.
+Variable cv : conv.
+Notation d := (cv_d cv).
+Notation sid := (cv_sid cv).
+Hypothesis HND : forall a, NoDup (map (mvid d) (metavars_in_order d a)).
+Hypothesis HFI : forall a, In a (exported d) -> exists i, find_item d (a_label a) = Some (i, IAx a).
+
+Definition axs := map (axiom_pat d sid) (exported d).
+
+Lemma HAX_axs : forall a, In a (exported d) -> existsb (pat_eqb (axiom_pat d sid a)) axs = true.
+Proof.
+  intros a Ha. apply existsb_exists. exists (axiom_pat d sid a). split; [apply in_map; exact Ha | apply pat_eqb_refl].
+Qed.
+
+Lemma gen_loop_agree labels applied steps : forall t t' h0,
+  trun d sid labels steps t = Some t' ->
+  R (foldM (gen_exec_proof_step cv axs (mkPf (zenum 1 labels) applied) (py_len (zenum 1 labels))) (map Z.of_N steps) (heap t))
+    (mkT (mst t) h0 (out t))
+  = Some (heap t', mkT (mst t') h0 (out t')).
+Proof.
+  induction steps as [|n steps IH]; intros t t' h0 H; simpl in H.
+  - inversion H; subst. apply R_foldM_nil.
+  - destruct (tstep d sid labels n t) as [t1|] eqn:S; [|discriminate].
+    cbn [map]. rewrite R_foldM_cons.
+    rewrite (R_heap_irrelevant _ (mst t) (heap t) h0 (out t)).
+    replace (mkT (mst t) (heap t) (out t)) with t by (destruct t; reflexivity).
+    rewrite (gen_exec_proof_step_agree cv axs HAX_axs HND labels applied t n t1 S). cbn [mst out].
+    apply IH. exact H.
+Qed.
+
+Lemma gen_get_lemma_by_name_agree target a pl steps t :
+  find_proof d target = Some (a, pl, steps) ->
+  R (gen_get_lemma_by_name cv target) t
+  = Some (mkLm a (mkPf (zenum 1 (conv_labels d a pl)) (map Z.of_N steps)), t).
+Proof.
+  intros F. unfold gen_get_lemma_by_name. rewrite F. rewrite R_bind, gen_split_proof_labels_agree. cbv beta iota.
+  rewrite R_ret. rewrite zdict_extend_zenum. reflexivity.
+Qed.
+
+(** exec_proof: label table, loop, final comparison with the claim, publish *)
+Theorem gen_exec_proof_agree target a pl steps t0 t t'' :
+  find_proof d target = Some (a, pl, steps) -> heap t0 = [] ->
+  trun d sid (conv_labels d a pl) steps t0 = Some t ->
+  match top t with
+  | Some (TProved p) => if pat_eqb p (lemma_pat d sid a) then do [OPublish] t else None
+  | _ => None end = Some t'' ->
+  exists h, R (gen_exec_proof cv target axs) t0 = Some (tt, mkT (mst t'') h (out t'')).
+Proof.
+  intros F H0 TR FIN. unfold gen_exec_proof.
+  rewrite R_bind, (gen_get_lemma_by_name_agree _ _ _ _ _ F). cbv beta iota zeta. cbn [lm_proof pf_labels pf_applied].
+  rewrite R_bind.
+  pose proof (gen_loop_agree (conv_labels d a pl) (map Z.of_N steps) steps t0 t (heap t0) TR) as GL.
+  replace (mkT (mst t0) (heap t0) (out t0)) with t0 in GL by (destruct t0; reflexivity). rewrite H0 in GL.
+  rewrite GL. cbv beta iota.
+  destruct (top t) as [[p|p]|] eqn:T; try discriminate. destruct (pat_eqb p (lemma_pat d sid a)) eqn:E; [|discriminate].
+  unfold top in T. destruct t as [[stk mem cl] h o]. cbn [mst stack hd_error] in T. destruct stk as [|y stk]; [discriminate|].
+  inversion T; subst y. Rstep.
+  rewrite (gen_get_lemma_by_name_agree _ _ _ _ _ F). Rstep. unfold lm_pattern, mk_proved. cbn [lm_a Instr.term_eqb]. rewrite E. Rstep.
+  unfold i_publish_proof. Rstep. rewrite term_eqb_refl'. Rstep.
+  match goal with |- context [do [OPublish] ?st] => assert (DP: do [OPublish] st = Some (mkT (mst t'') (heap st) (out t''))) end.
+  { unfold do in FIN |- *. cbn [mst out heap] in FIN |- *. destruct (iruns Proof [OPublish] _); [|discriminate]. inversion FIN. reflexivity. }
+  rewrite DP. Rstep. eexists. reflexivity.
+Qed.
+
+(** main: the axioms handed to the skeleton are the exported axioms' patterns, the claims the target's *)
+Theorem gen_extracted_agree target a pl steps t :
+  find_proof d target = Some (a, pl, steps) ->
+  R (gen_extracted cv target) t = Some ((axs, [lemma_pat d sid a]), t).
+Proof.
+  intros F. unfold gen_extracted. cbv zeta. rewrite R_bind.
+  match goal with |- context [foldM ?f _ _] => set (body := f) end.
+  assert (G: forall l acc, incl l (exported d) ->
+             R (foldM body (map a_label l) acc) t = Some (acc ++ map (axiom_pat d sid) l, t)).
+  { induction l as [|b l IH]; intros acc HI.
+    - cbn [map]. rewrite R_foldM_nil, app_nil_r. reflexivity.
+    - cbn [map]. rewrite R_foldM_cons. unfold body at 1. cbv beta iota.
+      destruct (HFI b (HI b (or_introl eq_refl))) as [i Fi].
+      rewrite R_bind. unfold cv_get_axiom_by_name. rewrite Fi, R_lift. cbv beta iota zeta.
+      assert (EP: R (if ax_has_antecedents b
+                     then (t4 <- gen_convert_to_implication cv (ax_antecedents cv b) (ax_pattern cv b) ;; ret (acc ++ [t4]))
+                     else ret (acc ++ [ax_pattern cv b]))%gen t = Some (acc ++ [axiom_pat d sid b], t)).
+      { unfold ax_has_antecedents, ax_antecedents, ax_pattern, axiom_pat, ants_pat. destruct (a_ess b) as [|e es] eqn:EE.
+        - simpl. apply R_ret.
+        - rewrite R_bind, gen_convert_to_implication_agree by discriminate. cbv beta iota. apply R_ret. }
+      rewrite EP. rewrite IH by (intros x Hx; apply HI; right; exact Hx). rewrite <- app_assoc. reflexivity. }
+  unfold cv_exported_axioms. rewrite (G (exported d) [] (incl_refl _)). cbv beta iota. simpl app.
+  rewrite R_bind, (gen_get_lemma_by_name_agree _ _ _ _ _ F). cbv beta iota zeta. rewrite R_ret. reflexivity.
+Qed.
+
+End Whole.
